@@ -624,6 +624,14 @@ async fn run_async(args: &Args) -> anyhow::Result<Report> {
             v.starved.borrow_mut().remove(&revive);
             v.inner.do_send(NodeManageRequest::ActiveNode(revive));
             v.history.push(format!("dead={:?}; revived {}", dead, revive));
+            if i % 2 == 0 {
+                // the periodic membership refresh of the real node (unchanged member list, every 20 s) may be the first thing that
+                // runs after the peer's first sign of life, before the next status check
+                let nodes: Vec<(u64, Arc<String>)> = v.ids.iter().map(|x| (*x, Arc::new(addr_of(*x)))).collect();
+                v.inner.do_send(NodeManageRequest::UpdateNodes(nodes));
+                v.history.push("member list re-announced unchanged before the next status check".to_string());
+                rep.count("revived_views_with_membership_refresh_first", 1);
+            }
             moved.push(i);
         }
         tokio::time::sleep(Duration::from_millis(4000)).await;
@@ -658,6 +666,14 @@ async fn run_async(args: &Args) -> anyhow::Result<Report> {
             v.starved.borrow_mut().remove(&revive);
             v.inner.do_send(NodeManageRequest::ActiveNode(revive));
             v.history.push(format!("dead={:?}; revived {}", dead, revive));
+            if i % 2 == 0 {
+                // the periodic membership refresh of the real node (unchanged member list, every 20 s) may be the first thing that
+                // runs after the peer's first sign of life, before the next status check
+                let nodes: Vec<(u64, Arc<String>)> = v.ids.iter().map(|x| (*x, Arc::new(addr_of(*x)))).collect();
+                v.inner.do_send(NodeManageRequest::UpdateNodes(nodes));
+                v.history.push("member list re-announced unchanged before the next status check".to_string());
+                rep.count("revived_views_with_membership_refresh_first", 1);
+            }
             moved.push(i);
         }
         tokio::time::sleep(Duration::from_millis(4000)).await;
